@@ -17,8 +17,8 @@ import (
 )
 
 type Engine struct {
-	loopMap  map[*ssa.Function]map[int]int // current loop ordinal -> ordinal in the contract (only when the loop count changed)
-	bindBase bindingBase // locals and loops of the contracted functions on the tree the contracts were written against
+	loopMap    map[*ssa.Function]map[int]int // current loop ordinal -> ordinal in the contract (only when the loop count changed)
+	bindBase   bindingBase                   // locals and loops of the contracted functions on the tree the contracts were written against
 	siteCache  map[*ssa.Function]*siteTable
 	prog       *ssa.Program
 	fset       *token.FileSet
@@ -270,10 +270,11 @@ type Frame struct {
 	paramVal map[string]Val
 	// names of function-typed parameters → for sub-contracts
 	callOrd  map[string]int
-	unroll   map[*ssa.BasicBlock]int // arrivals at the heads of loops that are unrolled (copy on write)
+	unroll   map[*ssa.BasicBlock]int       // arrivals at the heads of loops that are unrolled (copy on write)
+	borrowed map[*ssa.BasicBlock][]*Clause // helper frame: invariants taken over from the function under contract (nil entry: none)
 	retRes   ssa.Value
 	retDefer bool
-	inArgs   []Val   // inlined callee: the arguments and the byte contents they had at the call, for observers
+	inArgs   []Val // inlined callee: the arguments and the byte contents they had at the call, for observers
 	inSnaps  []*Term
 }
 
